@@ -113,3 +113,120 @@ func init() {
 			return obs
 		}})
 }
+
+// CTOR.funtype-siblings — C07 ("a macro call evaluates the expansion"): whether
+// the evaluator treats an LFun as a function, a macro or a special operator is
+// one field, FunType, set by the constructor.  Each kind has two constructors —
+// X and XInPackage (the older one leaves the package empty) — and they must
+// stamp the same FunType, or a host macro built through the older entry point
+// receives its arguments unevaluated and its "expansion" is returned as a
+// value, never evaluated.
+func init() {
+	register(&Rule{ID: "CTOR.funtype-siblings", Floor: 3,
+		Doc: "for each pair of LFun constructors (Fun / FunInPackage, Macro / MacroInPackage, SpecialOp / SpecialOpInPackage) the FunType constant that reaches the constructed value — followed through forwarding calls and helper parameters — is the same for both members, and the three kinds are pairwise different",
+		Run: func(c *Ctx) []Obligation {
+			const rid = "CTOR.funtype-siblings"
+			lp := c.Pkg("lisp")
+			if lp == nil {
+				return []Obligation{anchorMissing(rid, "package lisp")}
+			}
+			info := lp.TypesInfo
+			decls := map[*types.Func]*ast.FuncDecl{}
+			for _, u := range c.Funcs(func(p string) bool { return rel(p) == "lisp" }) {
+				if u.Decl != nil {
+					decls[u.Obj] = u.Decl
+				}
+			}
+			// funTypeOf: the FunType constant name the function's result carries, given constant bindings for its parameters
+			var funTypeOf func(f *types.Func, bind map[types.Object]string, depth int) (string, bool)
+			funTypeOf = func(f *types.Func, bind map[types.Object]string, depth int) (string, bool) {
+				d := decls[f]
+				if d == nil || d.Body == nil || depth > 4 {
+					return "", false
+				}
+				constOf := func(e ast.Expr) (string, bool) {
+					if o := identObjOrSel(info, e); o != nil {
+						if k, ok := o.(*types.Const); ok {
+							return k.Name(), true
+						}
+						if v, ok := bind[o]; ok {
+							return v, true
+						}
+					}
+					return "", false
+				}
+				res, ok := "", false
+				ast.Inspect(d.Body, func(n ast.Node) bool {
+					rs, isRet := n.(*ast.ReturnStmt)
+					if !isRet || len(rs.Results) != 1 {
+						return true
+					}
+					r := ast.Unparen(rs.Results[0])
+					if ue, isU := r.(*ast.UnaryExpr); isU {
+						r = ast.Unparen(ue.X)
+					}
+					switch x := r.(type) {
+					case *ast.CompositeLit:
+						res, ok = "LFunNone", true // zero value when the key is absent
+						for _, el := range x.Elts {
+							if kv, isKV := el.(*ast.KeyValueExpr); isKV {
+								if id, isID := kv.Key.(*ast.Ident); isID && id.Name == "FunType" {
+									res, ok = constOf(kv.Value)
+								}
+							}
+						}
+					case *ast.CallExpr:
+						g := originOf(Callee(info, x))
+						gd := decls[g]
+						if g == nil || gd == nil {
+							return true
+						}
+						nb := map[types.Object]string{}
+						i := 0
+						if gd.Type.Params != nil {
+							for _, fl := range gd.Type.Params.List {
+								for _, nm := range fl.Names {
+									if i < len(x.Args) {
+										if v, isC := constOf(x.Args[i]); isC {
+											nb[info.Defs[nm]] = v
+										}
+									}
+									i++
+								}
+							}
+						}
+						res, ok = funTypeOf(g, nb, depth+1)
+					}
+					return true
+				})
+				return res, ok
+			}
+			var obs []Obligation
+			kinds := map[string]string{}
+			for _, pair := range [][2]string{{"Fun", "FunInPackage"}, {"Macro", "MacroInPackage"}, {"SpecialOp", "SpecialOpInPackage"}} {
+				a, b := c.LookupPkgFunc("lisp."+pair[0]), c.LookupPkgFunc("lisp."+pair[1])
+				if a == nil || b == nil {
+					obs = append(obs, anchorMissing(rid, "lisp."+pair[0]+" / lisp."+pair[1]))
+					continue
+				}
+				ta, oka := funTypeOf(a, nil, 0)
+				tb, okb := funTypeOf(b, nil, 0)
+				u := FuncUnit{a, decls[a], lp}
+				construct := pair[0] + " = " + pair[1]
+				switch {
+				case !oka || !okb:
+					obs = append(obs, mkOb(c, rid, u, construct, decls[a], Undecided, "the FunType constant of one of the constructors could not be followed", true))
+				case ta != tb:
+					obs = append(obs, mkOb(c, rid, u, construct, decls[a], Violated, "lisp."+pair[0]+" builds an LFun with FunType "+ta+" but lisp."+pair[1]+" builds one with "+tb+": a value made through the older constructor is evaluated as a different kind of operator (a macro's expansion is not evaluated, or a function's arguments are not)", true))
+				default:
+					if prev, dup := kinds[ta]; dup {
+						obs = append(obs, mkOb(c, rid, u, construct, decls[a], Violated, "both "+prev+" and "+pair[0]+" constructors stamp "+ta, true))
+					} else {
+						kinds[ta] = pair[0]
+						obs = append(obs, mkOb(c, rid, u, construct, decls[a], Proved, "both stamp "+ta, true))
+					}
+				}
+			}
+			return obs
+		}})
+}
